@@ -69,5 +69,15 @@ C17_Endpoint(r) ==
   /\ r.got_path = ExpectedPath(r)
   /\ (r.exchange # "bitstamp" => r.got_symbol = r.upair /\ r.got_side = r.side /\ r.got_type = r.wire_type)
   /\ (r.exchange = "bitstamp" => r.action = (IF r.side = "BUY" THEN "buy" ELSE "sell"))
+\* totals a wrapper accumulates over several payload entries (fees per asset over the trades of an order, filled amounts
+\* over its transactions): the decoded total is the exact sum.  addends: <<coef, exp>> normalised; compared at the
+\* smallest exponent present
+MinExp(adds, ge) == LET S == {adds[i][2] : i \in 1..Len(adds)} \cup {ge} IN CHOOSE m \in S : \A x \in S : m <= x
+RECURSIVE SumAt(_, _, _)
+SumAt(adds, i, m) == IF i > Len(adds) THEN 0 ELSE adds[i][1] * Pow10(adds[i][2] - m) + SumAt(adds, i + 1, m)
+C17_PayloadSum(rec) ==
+  LET nz == SelectSeq(rec.addends, LAMBDA a : a[1] # 0)
+      m == MinExp(nz, IF rec.got_coef = 0 THEN (IF Len(nz) = 0 THEN 0 ELSE nz[1][2]) ELSE rec.got_exp) IN
+  rec.got_coef >= 0 /\ rec.got_coef * Pow10((IF rec.got_coef = 0 THEN m ELSE rec.got_exp) - m) = SumAt(nz, 1, m)
 C17_Status(rec) == rec.decoded /\ rec.is_open = ExpectedOpen(rec.skind, rec.status)
 ================================================================================
